@@ -8,6 +8,7 @@ import (
 var commands = map[string]func([]string){
 	"imports": cmdImports,
 	"cases":   cmdCases,
+	"heap":    cmdHeap,
 }
 
 func main() {
